@@ -41,8 +41,8 @@ type violOut struct {
 type tierSize struct{ worlds, steps int }
 
 var tiers = map[string]tierSize{
-	"quick":    {9600, 2500},
-	"thorough": {96000, 4000},
+	"quick":    {6400, 2500},
+	"thorough": {64000, 4000},
 }
 
 func mergeStats(dst, src map[string]int) {
@@ -355,7 +355,11 @@ func concludeSim(prop, tier string, seed int64, ts tierSize, merged *batchOut, t
 		fmt.Println("cannot write evidence:", err)
 		return 2
 	}
-	fmt.Printf("%s %s seed=%d: worlds=%d nontrivial-distinct=%d violations=%d known=%d other=%v inconclusive=%d wall=%.1fs\n", prop, tier, seed, merged.Worlds, len(distinct), len(mine), len(known), other, merged.NInconcl, wall)
+	vw := map[int]bool{}
+	for _, v := range mine {
+		vw[v.World] = true
+	}
+	fmt.Printf("%s %s seed=%d: worlds=%d nontrivial-distinct=%d violations=%d (in %d worlds) known=%d other=%v inconclusive=%d wall=%.1fs\n", prop, tier, seed, merged.Worlds, len(distinct), len(mine), len(vw), len(known), other, merged.NInconcl, wall)
 	seen := map[string]bool{}
 	for _, v := range known {
 		if !seen[v.Known] {
